@@ -27,6 +27,7 @@ def cases(tier, seed):
                         "sample": 60 if tier == "quick" else 1500})
     for (p, q) in ((20, 0), (60, 5), (100, 0), (0, 100), (300, 40)) + (((1000, 0), (500, 500)) if tier == "thorough" else ()):
         out.append({"name": "apply.large/p=%d/q=%d" % (p, q), "kind": "large", "p": p, "q": q})
+    out.append({"name": "apply.arities/0-45", "kind": "arities", "max": 45})
     cap = 30 if tier == "quick" else None
     for (p, q) in ((1, 0), (2, 0), (1, 1), (0, 2), (2, 2)):
         for pair in ((0, 1), (1, 0), (1, 2), (2, 1)):
@@ -199,6 +200,32 @@ def run_order(case, res):
     check_common(res)
 
 
+def run_arities(case, res):
+    """Every total number of inputs from 0 to max (positional / keyword split varied), function future last and first."""
+    global KW
+    for total in range(0, case["max"] + 1):
+        for q in sorted(set([0, min(total, 2), total // 2])):
+            p = total - q
+            while len(KW) < q:
+                KW = list(KW) + ["kw%d" % len(KW)]
+            for fn_last in (True, False):
+                begin("rt")
+                ctx = Ctx()
+                try:
+                    w = World(p, q)
+                    order = list(range(1, 1 + p + q))
+                    order = order + [0] if fn_last else [0] + order
+                    for i in order:
+                        w.complete(i)
+                    res.execs += 1
+                    label = "f_apply with %d positional and %d keyword inputs, function future %s" % (p, q, "last" if fn_last else "first")
+                    if w.judge(res, label):
+                        res.key("arity", p, q, fn_last)
+                finally:
+                    end(ctx)
+    check_common(res)
+
+
 def run_large(case, res):
     """Many arguments: the function future first / last / in the middle, arguments in order / reversed / shuffled,
     one failing input somewhere."""
@@ -280,6 +307,8 @@ def run_case(case, res):
     rng = random.Random("c16/%s/%s" % (case["seed"], case["name"]))
     if k == "large":
         return run_large(case, res)
+    if k == "arities":
+        return run_arities(case, res)
     if k == "order":
         run_order(case, res)
     elif k == "nested":
